@@ -194,7 +194,8 @@ def _raise_odd(kind):
     raise ModelProcessorError({"unicode_decode": "UnicodeDecodeError", "unicode_encode": "UnicodeEncodeError",
                                "exception_group": "ExceptionGroup", "os_error": "FileNotFoundError",
                                "key_error_tuple": "KeyError", "stop_iteration": "StopIteration",
-                               "empty_message": "ValueError", "two_arg_custom": "VTwoArgError"}.get(kind, "ZeroDivisionError"), incidental=False)
+                               "empty_message": "ValueError", "two_arg_custom": "VTwoArgError", "wraps_exception": "RuntimeError",
+                               "key_error_frozenset": "KeyError", "value_error_bytes": "ValueError"}.get(kind, "ZeroDivisionError"), incidental=False)
 
 
 COMPONENTS: dict[str, Comp] = {}
